@@ -2,6 +2,7 @@ package gtprovider
 
 import (
 	"os"
+	"strconv"
 	"strings"
 	"sync"
 	"text/template"
@@ -150,7 +151,8 @@ func (provider *Provider) View(layoutName, viewName string) (tmpl *template.Temp
 	if viewName == "" {
 		return nil, goaterr.Errorf("goathtml.Provider: A view name is required")
 	}
-	key = layoutName + ":" + viewName
+	// the layout name length makes the key unambiguous ("a:b"+"c" vs "a"+"b:c")
+	key = strconv.Itoa(len(layoutName)) + ":" + layoutName + ":" + viewName
 	provider.viewMutex.RLock()
 	tmpl, ok = provider.views[key]
 	provider.viewMutex.RUnlock()
